@@ -6,10 +6,13 @@ package props
 import (
 	"math/big"
 	"testing"
+	"time"
 
 	cfedistributor "github.com/chain4energy/c4e-chain/x/cfedistributor"
 	distrtypes "github.com/chain4energy/c4e-chain/x/cfedistributor/types"
 	mintertypes "github.com/chain4energy/c4e-chain/x/cfeminter/types"
+	sigkeeper "github.com/chain4energy/c4e-chain/x/cfesignature/keeper"
+	sigtypes "github.com/chain4energy/c4e-chain/x/cfesignature/types"
 	vestingtypes "github.com/chain4energy/c4e-chain/x/cfevesting/types"
 	sdk "github.com/cosmos/cosmos-sdk/types"
 )
@@ -88,5 +91,31 @@ func TestRegressC07(t *testing.T) {
 			t.Fatalf("OV=%s: split of 1 released %s", ovs, locked.Sub(after...))
 		}
 		st.Case(true, "regress: split of 1 from OV "+ovs)
+	}
+}
+
+// An empty link value must stay write-once across a Commit (the committed store must not treat an
+// empty value as absent).
+func TestRegressC15(t *testing.T) {
+	st := StatsFor("C15")
+	c := NewChainFromGenesis(GenesisBytes(BaseSpec()), 1, T0)
+	publish := func(key, val string) error {
+		_, err := sigkeeper.NewMsgServerImpl(c.App.CfesignatureKeeper).PublishReferencePayloadLink(sdk.WrapSDKContext(c.DeliverCtx()),
+			&sigtypes.MsgPublishReferencePayloadLink{Creator: KeyAcc(1).Addr.String(), Key: key, Value: val})
+		return err
+	}
+	for i, val := range []string{"", "v"} {
+		key := []string{"k-empty", "k-plain"}[i]
+		bt := c.Begin(c.Time.Add(time.Second))
+		if err := publish(key, val); err != nil {
+			t.Fatalf("first publish of %q failed: %v", key, err)
+		}
+		c.End(&bt)
+		bt = c.Begin(c.Time.Add(time.Second))
+		if err := publish(key, "other"); err == nil {
+			t.Fatalf("second publish at key %q (first value %q) was accepted after a commit", key, val)
+		}
+		c.End(&bt)
+		st.Case(true, "regress: write-once across commit, first value "+val)
 	}
 }
